@@ -155,7 +155,7 @@ def c13_coap_cases(draw):
 C13_LAYERS = [
     Layer("coap-batch-table", run_c13_coap, enumerate=enum_c13_coap, exhaustive=True,
           space="write and read batches of 1..3 items x 9 per-item outcomes (ok, PDU status 1..6, wrong tid, wrong control bits); quick: every 3rd vector for n = 3", min_nontrivial=300),
-    Layer("coap-batch-gen", run_c13_coap, strategy=c13_coap_cases, n={"quick": 500, "thorough": 15000}),
+    Layer("coap-batch-gen", run_c13_coap, strategy=c13_coap_cases, n={"quick": 2000, "thorough": 30000}),
 ]
 
 
@@ -361,7 +361,7 @@ def c06_coap_histories(draw):
 
 C06_LAYERS = [
     Layer("coap-dfs", run_c06_coap, enumerate=enum_c06_coap, exhaustive=True, space="all sequences over 14 events to depth 3 (quick) / 4 (thorough) ending in a request or event (deep replays also after 8 warm-up requests)", min_nontrivial=100),
-    Layer("coap-generated", run_c06_coap, strategy=c06_coap_histories, n={"quick": 500, "thorough": 15000}),
+    Layer("coap-generated", run_c06_coap, strategy=c06_coap_histories, n={"quick": 1500, "thorough": 25000}),
 ]
 
 
